@@ -245,9 +245,15 @@ pub fn run(id: &str, o: &Oracle, tier: &str, seed: u64, w: &mut dyn Write) -> Op
                 }
                 out.ev(json!({"op":"shift_hand","pre":hilo_arr(&h)}));
                 if n >= 5 && k % 5 != 0 {
-                    let sh = Hand::from_words(&h).shift_suit().to_arr();
-                    out.ev(json!({"op": if n == 5 {"rank5"} else {"rankn"},"words":hilo_arr(&h),"group":k}));
-                    out.ev(json!({"op": if n == 5 {"rank5"} else {"rankn"},"words":hilo_arr(&sh),"group":k}));
+                    // the value before and after one, two and three shifts: C08 relates them to each other
+                    let mut cur = h.clone();
+                    for _ in 0..3 {
+                        out.ev(json!({"op":"shift_value","pre":hilo_arr(&cur)}));
+                        cur = Hand::from_words(&cur).shift_suit().to_arr();
+                        if cur.iter().any(|w| !o.word_to_card.contains_key(w)) {
+                            break; // the shift left the deck: already rejected by the shift_value rule above
+                        }
+                    }
                 }
             }
         }
